@@ -5743,17 +5743,14 @@ func ruleLoaderLoadsEveryTable(c *Ctx, r *Reporter) {
 		r.Unresolved("storage.Manager.loadSSTables / Manager.sstables", "not found")
 		return
 	}
-	var loop *RangeLoop
-	for _, l := range RangeLoops(fn) {
-		if l.Slice == nil {
-			continue
-		}
-		if ex, ok := l.Slice.(*ssa.Extract); ok {
+	loop := rangeOrIndexLoop(fn, func(v ssa.Value) bool {
+		if ex, ok := v.(*ssa.Extract); ok {
 			if call, ok := ex.Tuple.(*ssa.Call); ok && staticName(call) == "os.ReadDir" {
-				loop = l
+				return true
 			}
 		}
-	}
+		return false
+	})
 	if loop == nil {
 		r.Undecided(cons, c.FnPos(fn), "no range loop over the directory listing found")
 		return
@@ -5947,4 +5944,516 @@ func ruleRetentionCallers(c *Ctx, r *Reporter) {
 	if n == 0 {
 		r.Info("wal.WAL.ManageRetention", c.FnPos(mr), "no caller in the module")
 	}
+}
+
+// ruleWriterWritesEveryFilter (round 10): the other half of every-block-filter-is-loaded. Reader.Get skips a block it finds
+// no filter for, so once a table has a filter section it needs the filter of every block: the loop in Writer.Finish
+// that serialises the collected filters writes each of them — no iteration goes on to the next filter without the
+// write ("too few keys to be worth a filter").
+func ruleWriterWritesEveryFilter(c *Ctx, r *Reporter) {
+	r.Rule("every-block-filter-is-written", 1)
+	fn := c.Func("pkg/sstable", "Writer", "Finish")
+	bf := c.Field("pkg/sstable", "Writer", "bloomFilters")
+	cons := "sstable.Writer.Finish:filter-loop"
+	if fn == nil || bf == nil {
+		r.Unresolved("sstable.Writer.Finish / Writer.bloomFilters", "not found")
+		return
+	}
+	loop := rangeOrIndexLoop(fn, func(v ssa.Value) bool { return isLoadOfField(v, bf) })
+	if loop == nil {
+		r.Undecided(cons, c.FnPos(fn), "no range loop over Writer.bloomFilters found")
+		return
+	}
+	writes := func(i ssa.Instruction) bool {
+		call, ok := i.(ssa.CallInstruction)
+		if !ok {
+			return false
+		}
+		if f := call.Common().StaticCallee(); f != nil {
+			switch f.Name() {
+			case "Write", "Serialize", "WriteTo":
+				return f.Name() != "Serialize" // Serialize alone does not write; the write of its result does
+			}
+		}
+		if call.Common().IsInvoke() && call.Common().Method.Name() == "Write" {
+			return true
+		}
+		return false
+	}
+	bad, path := loop.IterationMustPass(func(i ssa.Instruction) bool {
+		if writes(i) {
+			return true
+		}
+		_, isRet := i.(*ssa.Return) // an iteration that ends the function with an error is not a skipped filter
+		return isRet
+	}, nil)
+	if bad != nil {
+		r.Bad(cons, c.blockPos(loop.Body), "an iteration over the collected block filters can go on to the next one without writing this one: the table then has a filter section that lacks some blocks, and Reader.Get — which skips a block it finds no filter for — answers not-found for every key of those blocks (iteration and seeks still see them)", c.PathString(path)...)
+		return
+	}
+	r.OK(cons, c.blockPos(loop.Body), "every collected filter is written (or Finish fails)")
+}
+
+// ruleNoTryLockFallbacks (round 10): this code base takes its locks unconditionally. A TryLock/TryRLock with a fallback
+// ("do not queue behind the writer: answer from the last snapshot / the acknowledged position / a cached value") answers
+// with something other than the protected state exactly when the state is being changed — the reported sequence
+// drops, an iterator starts behind writes that have returned. Each use is reported.
+func ruleNoTryLockFallbacks(c *Ctx, r *Reporter) {
+	r.Rule("no-trylock-fallbacks", 0)
+	n := 0
+	for _, fn := range c.KevoFns {
+		if !strings.HasPrefix(pkgOf(fn), "pkg/") {
+			continue
+		}
+		AllInstrs(fn, false, func(_ *ssa.Function, ins ssa.Instruction) {
+			call, ok := ins.(ssa.CallInstruction)
+			if !ok {
+				return
+			}
+			f := call.Common().StaticCallee()
+			if f == nil || f.Pkg == nil || f.Pkg.Pkg.Path() != "sync" {
+				return
+			}
+			if f.Name() == "TryLock" || f.Name() == "TryRLock" {
+				n++
+				r.Bad(FnName(fn)+":"+f.Name(), c.InsPos(ins), "a try-lock with a fallback path: when the lock is held — that is, while the protected state is being changed — the function answers from somewhere else (a remembered snapshot, another counter, a cache). Readers of that answer see the state go backwards or miss writes that have already returned; every lock in this code base is taken unconditionally")
+			}
+		})
+	}
+	if n == 0 {
+		r.OK("pkg:try-locks", "-", "no TryLock/TryRLock in the module's packages")
+	}
+}
+
+// ruleFilteredNextScansToMatch (round 10): the filtering iterator's contract with its callers is "Next returns false only at
+// the end": SeekToFirst calls Next once, Valid() re-applies the filter, and the service's scan loops stop at the first
+// false. The skip loop of FilteredIterator.Next is left only because the wrapped iterator is exhausted or the filter
+// matched — never on a count of skipped keys (a "budget per call" silently truncates prefix and suffix scans whose
+// matches sit behind a long run of other keys).
+func ruleFilteredNextScansToMatch(c *Ctx, r *Reporter) {
+	r.Rule("filtered-next-ends-only-at-a-match-or-the-end", 1)
+	fn := c.Func("pkg/common/iterator/filtered", "FilteredIterator", "Next")
+	cons := "filtered.FilteredIterator.Next"
+	if fn == nil {
+		r.Unresolved(cons, "not found")
+		return
+	}
+	var bad ssa.Instruction
+	for _, b := range fn.Blocks {
+		if len(b.Instrs) == 0 {
+			continue
+		}
+		iff, ok := b.Instrs[len(b.Instrs)-1].(*ssa.If)
+		if !ok {
+			continue
+		}
+		var numeric func(v ssa.Value, d int) bool
+		numeric = func(v ssa.Value, d int) bool {
+			if d > 4 {
+				return false
+			}
+			switch x := v.(type) {
+			case *ssa.BinOp:
+				switch x.Op {
+				case token.LSS, token.GTR, token.LEQ, token.GEQ, token.EQL, token.NEQ:
+					if bt, ok := x.X.Type().Underlying().(*types.Basic); ok && bt.Info()&types.IsInteger != 0 {
+						return true
+					}
+				}
+			case *ssa.UnOp:
+				return numeric(x.X, d+1)
+			case *ssa.Phi:
+				for _, e := range x.Edges {
+					if numeric(e, d+1) {
+						return true
+					}
+				}
+			}
+			return false
+		}
+		if numeric(iff.Cond, 0) {
+			bad = iff
+		}
+	}
+	r.Check(bad == nil, cons, func() string {
+		if bad != nil {
+			return c.InsPos(bad)
+		}
+		return c.FnPos(fn)
+	}(), "Next is steered only by the wrapped iterator and the filter",
+		"FilteredIterator.Next branches on a number (a count of skipped keys, a budget): it can return false before the wrapped iterator is exhausted, and its callers take false for the end — SeekToFirst calls it once, the service's scan loops stop — so a prefix or suffix scan whose matches lie behind a long run of other keys comes back truncated or empty")
+}
+
+// ruleConfigWrittenOnlyInConfigPkg (round 10): the configuration object the engine loaded from the MANIFEST is shared by
+// every component and is what SaveManifest writes back. Outside pkg/config nobody assigns its fields after the load (a
+// component that "clamps" a setting in the shared object changes what the next SaveManifest stores: the database is
+// reopened with a configuration it was not created with). Components that need an adjusted value keep it locally.
+func ruleConfigWrittenOnlyInConfigPkg(c *Ctx, r *Reporter) {
+	r.Rule("shared-config-is-not-modified-by-components", 0)
+	cfg := c.Named("pkg/config", "Config")
+	if cfg == nil {
+		r.Unresolved("config.Config", "not found")
+		return
+	}
+	n := 0
+	for _, fn := range c.KevoFns {
+		p := pkgOf(fn)
+		if !strings.HasPrefix(p, "pkg/") || p == "pkg/config" {
+			continue
+		}
+		AllInstrs(fn, false, func(_ *ssa.Function, ins ssa.Instruction) {
+			st, ok := ins.(*ssa.Store)
+			if !ok {
+				return
+			}
+			fa, ok := st.Addr.(*ssa.FieldAddr)
+			if !ok {
+				return
+			}
+			t := fa.X.Type()
+			if pt, ok := t.Underlying().(*types.Pointer); ok {
+				t = pt.Elem()
+			}
+			if t != types.Type(cfg) {
+				return
+			}
+			if _, fresh := fa.X.(*ssa.Alloc); fresh {
+				return // a configuration being built in this function
+			}
+			if call, ok := fa.X.(*ssa.Call); ok && call.Call.StaticCallee() != nil && strings.HasPrefix(call.Call.StaticCallee().Name(), "NewDefault") {
+				return
+			}
+			n++
+			fv := fieldVarOf(fa)
+			name := "?"
+			if fv != nil {
+				name = fv.Name()
+			}
+			r.Bad(FnName(fn)+":Config."+name, c.InsPos(ins), "a component assigns a field of the shared configuration object (the one loaded from the MANIFEST and written back by SaveManifest): the adjusted value replaces the stored one at the next save, and the database is reopened with a configuration it was not created with")
+		})
+	}
+	if n == 0 {
+		r.OK("pkg:config-field-stores", "-", "no component outside pkg/config assigns a field of a shared *config.Config")
+	}
+}
+
+// ruleReplicaDialsReportedAddress (round 10): Manager.GetNodeInfo reports ManagerConfig.PrimaryAddr as the replica's primary.
+// That is truthful only if it is the address the replica dials: startReplica copies it into the replica's connection
+// configuration unconditionally, before the replica is created.
+func ruleReplicaDialsReportedAddress(c *Ctx, r *Reporter) {
+	r.Rule("replica-dials-the-address-it-reports", 1)
+	fn := c.Func("pkg/replication", "Manager", "startReplica")
+	pa := c.Field("pkg/replication", "ManagerConfig", "PrimaryAddr")
+	cons := "replication.Manager.startReplica:PrimaryAddress"
+	if fn == nil || pa == nil {
+		r.Unresolved("replication.Manager.startReplica / ManagerConfig.PrimaryAddr", "not found")
+		return
+	}
+	var st ssa.Instruction
+	var mk ssa.Instruction
+	AllInstrs(fn, false, func(_ *ssa.Function, ins ssa.Instruction) {
+		switch x := ins.(type) {
+		case *ssa.Store:
+			if fv := fieldVarOf(x.Addr); fv != nil && fv.Name() == "PrimaryAddress" && isLoadOfField(x.Val, pa) {
+				st = ins
+			}
+		case *ssa.Call:
+			if f := x.Call.StaticCallee(); f != nil && f.Name() == "NewReplica" {
+				mk = ins
+			}
+		}
+	})
+	switch {
+	case mk == nil:
+		r.Undecided(cons, c.FnPos(fn), "no call of NewReplica found")
+	case st == nil:
+		r.Bad(cons, c.InsPos(mk), "the replica is created without the manager's PrimaryAddr being copied into its connection configuration: the address reported by GetNodeInfo is not the one dialed")
+	default:
+		r.Check(Dominates(st, mk), cons, c.InsPos(st), "the reported address is copied into the connection configuration on every path to NewReplica",
+			"the manager's PrimaryAddr reaches the replica's connection configuration only on some paths: where it does not, the replica dials whatever the caller put there while GetNodeInfo goes on reporting ManagerConfig.PrimaryAddr — the node information names a primary the replica is not connected to (or none)")
+	}
+}
+
+// ruleSourceFilesAreAPrefix (round 10): a compaction may move files of a level down only if no OLDER file of that level that
+// shares keys with them stays behind (the older file would then sit above the newer data and shadow it). The size-ratio
+// and promotion selections guarantee that by taking a prefix of the oldest-first order — on this tree the single oldest
+// file. The set of source-level files of the task is therefore the first element (or a leading slice) of the sorted
+// list, never a subset picked by a per-file condition ("the oldest and whatever overlaps it": a file in between that
+// overlaps the picked ones but not the oldest stays behind, older than what sinks below it).
+func ruleSourceFilesAreAPrefix(c *Ctx, r *Reporter) {
+	r.Rule("source-files-are-a-prefix-of-the-oldest-first-order", 1)
+	for _, name := range []string{"selectOverlappingCompaction", "selectPromotionCompaction"} {
+		fn := c.Func("pkg/compaction", "TieredCompactionStrategy", name)
+		cons := "compaction.TieredCompactionStrategy." + name + ":source-files"
+		if fn == nil {
+			continue
+		}
+		var levelP ssa.Value
+		for _, p := range fn.Params {
+			if p.Type().String() == "int" {
+				levelP = p
+			}
+		}
+		if levelP == nil {
+			continue
+		}
+		var upd *ssa.MapUpdate
+		AllInstrs(fn, false, func(_ *ssa.Function, ins ssa.Instruction) {
+			if mu, ok := ins.(*ssa.MapUpdate); ok && stripConv(mu.Key) == levelP {
+				upd = mu
+			}
+		})
+		if upd == nil {
+			r.Info(cons, c.FnPos(fn), "no InputFiles[level] assignment found: not judged")
+			continue
+		}
+		ok := false
+		why := ""
+		if els := sliceLiteralElems(upd.Value); len(els) > 0 {
+			ok = true
+			for k, e := range els {
+				// element k must be sorted[k]
+				ld, isLd := e.(*ssa.UnOp)
+				if !isLd || ld.Op != token.MUL {
+					ok = false
+					break
+				}
+				ia, isIA := ld.X.(*ssa.IndexAddr)
+				if !isIA {
+					ok = false
+					break
+				}
+				if idx, isK := constInt(ia.Index); !isK || idx != int64(k) {
+					ok = false
+				}
+			}
+			if !ok {
+				why = "the listed elements are not sorted[0], sorted[1], …"
+			}
+		} else if sl, isSl := upd.Value.(*ssa.Slice); isSl {
+			if sl.Low == nil {
+				ok = true
+			} else if k, isK := constInt(sl.Low); isK && k == 0 {
+				ok = true
+			} else {
+				why = "a slice that does not start at the oldest file"
+			}
+		} else {
+			why = "built by something other than a literal of leading elements or a leading slice (" + Path(upd.Value) + ")"
+		}
+		r.Check(ok, cons, c.InsPos(upd), "the source-level files of the task are the leading element(s) of the oldest-first list",
+			"the files taken from the source level are not a prefix of the oldest-first order — "+why+": a file that is older than one of the picked files, shares keys with it and is not picked itself stays in the level while the newer data sinks below it; reads then find the older version first (an overwritten key reverts, a deleted key comes back)")
+	}
+}
+
+// ruleApplierWrappersRecordAfterApply (round 10): whatever stands between the batch applier and the engine applier and keeps
+// its own "highest sequence seen" has to advance it only when the wrapped Apply succeeded. Advancing first turns a failed
+// apply into a skipped entry: the ordinary retransmission is swallowed as "already seen", the batch applier moves past
+// it, and the replica reports a sequence it never applied. In every Apply method of pkg/replication that delegates to
+// another applier, a store to a sequence field is not made on a path that has not yet seen the delegate succeed.
+func ruleApplierWrappersRecordAfterApply(c *Ctx, r *Reporter) {
+	r.Rule("applier-wrappers-record-after-the-apply", 0)
+	n := 0
+	for _, fn := range c.KevoFns {
+		if pkgOf(fn) != "pkg/replication" || fn.Name() != "Apply" || fn.Signature.Recv() == nil || fn.Parent() != nil {
+			continue
+		}
+		var del *ssa.Call
+		AllInstrs(fn, false, func(_ *ssa.Function, ins ssa.Instruction) {
+			if call, ok := ins.(*ssa.Call); ok && call.Call.IsInvoke() && call.Call.Method.Name() == "Apply" {
+				del = call
+			}
+		})
+		if del == nil {
+			continue
+		}
+		okF := callOKFactFor(del)
+		AllInstrs(fn, false, func(_ *ssa.Function, ins ssa.Instruction) {
+			st, ok := ins.(*ssa.Store)
+			if !ok {
+				return
+			}
+			fa, ok := st.Addr.(*ssa.FieldAddr)
+			if !ok || fa.X != ssa.Value(fn.Params[0]) {
+				return
+			}
+			if bt, ok := st.Val.Type().Underlying().(*types.Basic); !ok || bt.Kind() != types.Uint64 {
+				return
+			}
+			n++
+			fv := fieldVarOf(fa)
+			cons := FnName(fn) + ":" + fv.Name()
+			r.Check(GuardedBy(ins.Block(), okF), cons, c.InsPos(ins), "the position is advanced behind the wrapped Apply's success",
+				"a wrapper around the entry applier advances its own position ("+fv.Name()+") before the wrapped Apply has succeeded: when that Apply fails, the entry is already marked as seen — the retransmission is swallowed as a duplicate, the batch applier moves past it, the entry is never applied and the replica reports a sequence beyond what it has")
+		})
+	}
+	if n == 0 {
+		r.OK("pkg/replication:applier-wrappers", "-", "no delegating Apply keeps a position of its own")
+	}
+}
+
+// rangeOrIndexLoop: the loop of fn that visits every element of the slice recognised by isSlice, first to last — a
+// range loop, or an indexed loop `for i := 0; i < len(s); i++` (returned in RangeLoop shape so that IterationMustPass
+// and Elems work alike).
+func rangeOrIndexLoop(fn *ssa.Function, isSlice func(ssa.Value) bool) *RangeLoop {
+	for _, l := range RangeLoops(fn) {
+		if l.Slice != nil && isSlice(l.Slice) {
+			return l
+		}
+	}
+	for _, w := range IndexWalks(fn) {
+		if w.Dir != "asc" || len(w.IndexAddr) == 0 || !isSlice(w.IndexAddr[0].X) || !walkCoversAllOf(w, isSlice) {
+			continue
+		}
+		var body, done *ssa.BasicBlock
+		for _, sc := range w.Loop.Header.Succs {
+			if w.Loop.Contains(sc) {
+				body = sc
+			} else {
+				done = sc
+			}
+		}
+		if body == nil {
+			continue
+		}
+		l := &RangeLoop{Header: w.Loop.Header, Body: body, Done: done, Slice: w.IndexAddr[0].X}
+		for _, ia := range w.IndexAddr {
+			if ia.Referrers() == nil {
+				continue
+			}
+			for _, ref := range *ia.Referrers() {
+				if ld, ok := ref.(*ssa.UnOp); ok && ld.Op == token.MUL {
+					l.Elems = append(l.Elems, ld)
+				}
+			}
+		}
+		return l
+	}
+	return nil
+}
+
+// ruleObserversDoNotReenterTheLog (round 10): the log calls its observers from inside Append/AppendBatch/Sync with WAL.mu held,
+// and WAL.mu is not reentrant. Nothing an observer callback of the primary reaches synchronously (goroutines it starts
+// excepted) may acquire WAL.mu again — a "clean-up" or "re-evaluate retention" step added to a callback makes the writing
+// goroutine wait on itself, and every later write of the primary hangs behind it.
+func ruleObserversDoNotReenterTheLog(c *Ctx, r *Reporter) {
+	r.Rule("observers-do-not-reenter-the-log", 3)
+	walMu := c.Field("pkg/wal", "WAL", "mu")
+	if walMu == nil {
+		r.Unresolved("wal.WAL.mu", "not found")
+		return
+	}
+	locksWAL := func(fn *ssa.Function) ssa.Instruction {
+		var at ssa.Instruction
+		AllInstrs(fn, false, func(_ *ssa.Function, ins ssa.Instruction) {
+			call, ok := ins.(ssa.CallInstruction)
+			if !ok {
+				return
+			}
+			if _, isGo := ins.(*ssa.Go); isGo {
+				return
+			}
+			f := call.Common().StaticCallee()
+			if f == nil || f.Pkg == nil || f.Pkg.Pkg.Path() != "sync" || (f.Name() != "Lock" && f.Name() != "RLock") || len(call.Common().Args) == 0 {
+				return
+			}
+			if fieldVarOf(call.Common().Args[0]) == walMu {
+				at = ins
+			}
+		})
+		return at
+	}
+	for _, name := range []string{"OnWALEntryWritten", "OnWALBatchWritten", "OnWALSync"} {
+		root := c.Func("pkg/replication", "Primary", name)
+		cons := "replication.Primary." + name
+		if root == nil {
+			r.Unresolved(cons, "not found")
+			continue
+		}
+		parent := map[*ssa.Function]*ssa.Function{root: nil}
+		work := []*ssa.Function{root}
+		var hit *ssa.Function
+		var hitAt ssa.Instruction
+		for len(work) > 0 && hit == nil {
+			fn := work[0]
+			work = work[1:]
+			if at := locksWAL(fn); at != nil {
+				hit, hitAt = fn, at
+				break
+			}
+			AllInstrs(fn, false, func(_ *ssa.Function, ins ssa.Instruction) {
+				if _, isGo := ins.(*ssa.Go); isGo {
+					return
+				}
+				ci, ok := ins.(ssa.CallInstruction)
+				if !ok {
+					return
+				}
+				for _, callee := range c.Callees(ci) {
+					if _, seen := parent[callee]; !seen && c.InKevo(callee) {
+						parent[callee] = fn
+						work = append(work, callee)
+					}
+				}
+			})
+		}
+		if hit != nil {
+			var chain []string
+			for f := hit; f != nil; f = parent[f] {
+				chain = append([]string{FnName(f)}, chain...)
+			}
+			r.Bad(cons, c.InsPos(hitAt), "the observer callback, which the log calls with WAL.mu held, synchronously reaches a function that acquires WAL.mu ("+strings.Join(chain, " → ")+"): the mutex is not reentrant, so the writing goroutine waits on itself and every later write of the primary blocks behind it")
+			continue
+		}
+		r.OK(cons, c.FnPos(root), fmt.Sprintf("none of the %d functions reached synchronously acquires WAL.mu", len(parent)))
+	}
+}
+
+// ruleBackoffFromCurrentEpisodeOnly (round 10): this replica passes through ERROR and its back-off after every applied batch,
+// so the pause must depend on the CURRENT error episode only (state and time in state). Anything cumulative over the
+// replica's life — a count of failed connects in the transition history, the number of errors so far — makes every
+// later catch-up step slower for ever: after a handful of failed dials early in its life the replica needs a minute per
+// hundred entries. calculateBackoff asks the state tracker for GetState / GetStateDuration and nothing else.
+func ruleBackoffFromCurrentEpisodeOnly(c *Ctx, r *Reporter) {
+	r.Rule("backoff-depends-only-on-the-current-episode", 1)
+	fn := c.Func("pkg/replication", "Replica", "calculateBackoff")
+	cons := "replication.Replica.calculateBackoff"
+	if fn == nil {
+		r.Unresolved(cons, "not found")
+		return
+	}
+	allowed := map[string]bool{"GetState": true, "GetStateDuration": true, "GetStateString": true}
+	var bad ssa.Instruction
+	what := ""
+	n := 0
+	for _, h := range withSameReceiverHelpers(fn) {
+		call, ok := h.ins.(ssa.CallInstruction)
+		if !ok {
+			continue
+		}
+		f := call.Common().StaticCallee()
+		if f == nil {
+			continue
+		}
+		switch recvTypeName(f) {
+		case "replication.StateTracker":
+			n++
+			if !allowed[f.Name()] {
+				bad, what = h.at, "StateTracker."+f.Name()
+			}
+		case "replication.ReplicaStats":
+			bad, what = h.at, "ReplicaStats."+f.Name()
+		}
+	}
+	if n == 0 {
+		r.Undecided(cons, c.FnPos(fn), "calculateBackoff does not consult the state tracker")
+		return
+	}
+	r.Check(bad == nil, cons, func() string {
+		if bad != nil {
+			return c.InsPos(bad)
+		}
+		return c.FnPos(fn)
+	}(), "the pause is computed from the current state and the time in it",
+		"the reconnect pause is computed from "+what+", which is not a property of the current error episode (a lifetime count, a history): this replica goes through its back-off after every batch of at most 100 entries, so anything cumulative makes each later step slower for good — after a few failed dials early on, a catch-up takes a minute per hundred entries")
 }
